@@ -14,13 +14,148 @@ from __future__ import annotations
 
 import ast
 
-from ..astutil import dotted, src, walk_local, local_assignments, calls, dominating_guards, op_test
+from ..astutil import dotted, src, walk_local, local_assignments, calls, dominating_guards, op_test, reaching_value
 from ..logic import formula, And, Or, Not, atom, TRUE, counterexample
 from ..report import AnalysisError, Report
 from .c06 import path_condition, _check_linprog
 from .c18 import backend_calls
 
 HIGHS = ("highs", "highs-ds", "highs-ipm")
+
+
+def _routing_by_scenario(prog, rep, solve, lp_entries, nlp_entries):
+    """R08.1: Problem.solve is walked for every (method literal, problem linear?) scenario, tracking rebinding of
+    ``method``; the solver entry the walk returns through and the ``method=`` it is given are compared with the
+    routing table.  Independent of how the ladder is written (early returns, rebinding to 'linprog', merged tests)."""
+    from ..scenario import Explorer, TooManyPaths
+
+    UNK = "?"
+    NLP = "<nlp-choice>"
+    auto = prog.lookup_method("Problem", "_auto_select_method")
+    auto_rets = [r.value for r in walk_local(auto.node) if isinstance(r, ast.Return)] if auto else []
+    auto_ok = bool(auto_rets) and all(isinstance(v, ast.Constant) and isinstance(v.value, str) and v.value not in ("linprog",) + HIGHS for v in auto_rets)
+
+    def value(e, env, linear):
+        if isinstance(e, ast.Constant):
+            return e.value
+        if isinstance(e, ast.Name):
+            return env.get(e.id, UNK)
+        if isinstance(e, ast.IfExp):
+            t = truth(e.test, env, linear)
+            if t is None:
+                a, b = value(e.body, env, linear), value(e.orelse, env, linear)
+                return a if a == b else UNK
+            return value(e.body if t else e.orelse, env, linear)
+        if isinstance(e, ast.Call) and isinstance(e.func, ast.Attribute) and e.func.attr == "_auto_select_method":
+            return NLP if auto_ok else UNK
+        return UNK
+
+    def truth(t, env, linear):
+        if isinstance(t, ast.UnaryOp) and isinstance(t.op, ast.Not):
+            v = truth(t.operand, env, linear)
+            return None if v is None else (not v)
+        if isinstance(t, ast.BoolOp):
+            vs = [truth(x, env, linear) for x in t.values]
+            if isinstance(t.op, ast.And):
+                return False if any(v is False for v in vs) else None if any(v is None for v in vs) else True
+            return True if any(v is True for v in vs) else None if any(v is None for v in vs) else False
+        if isinstance(t, ast.Call) and isinstance(t.func, ast.Attribute) and t.func.attr == "_is_linear_problem":
+            return linear
+        if isinstance(t, ast.Compare) and len(t.ops) == 1:
+            l = value(t.left, env, linear)
+            op = t.ops[0]
+            c = t.comparators[0]
+            if src(t.left).endswith("_objective") and isinstance(c, ast.Constant) and c.value is None:
+                return isinstance(op, (ast.IsNot, ast.NotEq))
+            if l == UNK:
+                return None
+            if isinstance(op, (ast.In, ast.NotIn)):
+                if isinstance(c, (ast.Tuple, ast.List, ast.Set)) and all(isinstance(x, ast.Constant) for x in c.elts):
+                    r = l in [x.value for x in c.elts]
+                elif isinstance(c, ast.Name):
+                    # module-level tuple of names
+                    vals = _module_literal(prog, solve.module, c.id)
+                    if vals is None:
+                        return None
+                    r = l in vals
+                else:
+                    return None
+                return r if isinstance(op, ast.In) else (not r)
+            r = value(c, env, linear)
+            if r == UNK:
+                return None
+            if isinstance(op, (ast.Eq, ast.Is)):
+                return l == r
+            if isinstance(op, (ast.NotEq, ast.IsNot)):
+                return l != r
+        return None
+
+    scenarios = [("auto", True), ("auto", False), ("linprog", None)] + [(h, None) for h in HIGHS] + [("SLSQP", None)]
+    n = 0
+    for lit, linear in scenarios:
+        for lin in ((linear,) if linear is not None else (True, False)):
+            def atom_truth(t, state, lin=lin):
+                return truth(t, state["env"], lin)
+
+            def on_stmt(st, state, lin=lin):
+                if isinstance(st, (ast.Assign, ast.AnnAssign)) and getattr(st, "value", None) is not None:
+                    tg = st.targets[0] if isinstance(st, ast.Assign) else st.target
+                    if isinstance(tg, ast.Name):
+                        state["env"][tg.id] = value(st.value, state["env"], lin)
+
+            ex = Explorer(atom_truth, on_stmt, max_paths=2048)
+            try:
+                paths = ex.explore(solve.node.body, {"env": {"method": lit}})
+            except TooManyPaths:
+                rep.undecided(f"Problem.solve: too many paths for method={lit!r}")
+                continue
+            outcomes = set()
+            for state, term in paths:
+                if term == "raise":
+                    continue
+                if isinstance(term, tuple) and isinstance(term[1], ast.Call) and dotted(term[1].func) in lp_entries | nlp_entries:
+                    c = term[1]
+                    kw = {k.arg: k.value for k in c.keywords if k.arg}
+                    m = value(kw["method"], state["env"], lin) if "method" in kw else None
+                    outcomes.add(("lp" if dotted(c.func) in lp_entries else "nlp", m, c.lineno))
+                else:
+                    outcomes.add(("other", src(term[1])[:40] if isinstance(term, tuple) else str(term), 0))
+            n += 1
+            where = lambda o: f"{solve.module.rel}:{o[2] or solve.node.lineno}"
+            construct = f"Problem.solve[{lit}]"
+            if any(o[0] == "other" for o in outcomes) or not outcomes:
+                rep.undecided(f"{construct}: a path leaves Problem.solve without calling a solver entry ({sorted(outcomes, key=str)[:2]})")
+                continue
+            if lit == "auto":
+                want = "lp" if lin else "nlp"
+                bad = [o for o in outcomes if o[0] != want]
+                rep.ob("R08.1", construct, not bad, f"auto with a {'linear' if lin else 'non-linear'} problem reaches the {'LP' if lin else 'NLP'} solver" if not bad else
+                       ("auto routing to the LP solver is not guarded by the linearity predicate: a non-linear problem reaches linprog" if not lin else "a linear problem under auto is sent to the NLP solver"),
+                       loc=where(bad[0]) if bad else solve.loc, detail="auto-iff-linear" if not lin else "auto-linear-not-nlp")
+                if lin and not bad:
+                    okm = all(o[1] in (None, "highs") for o in outcomes)
+                    rep.ob("R08.1", construct, okm, "auto leaves the HiGHS variant to the LP solver" if okm else f"auto hands method={sorted(str(o[1]) for o in outcomes)} to the LP solver", loc=where(next(iter(outcomes))), detail="auto-method")
+            elif lit == "SLSQP":
+                bad = [o for o in outcomes if o[0] != "nlp"]
+                rep.ob("R08.1", construct, not bad, "an NLP method name reaches the NLP solver" if not bad else "an NLP method name is routed to the LP solver", loc=where(bad[0]) if bad else solve.loc, detail="nlp-stays-nlp")
+            else:
+                leak = [o for o in outcomes if o[0] != "lp"]
+                rep.ob("R08.1", construct, not leak, f"method={lit!r} is routed to the LP solver" if not leak else f"method={lit!r} can fall through to the NLP solver (scipy.optimize.minimize has no such method)", loc=where(leak[0]) if leak else solve.loc, detail="routed-to-lp")
+                if not leak:
+                    if lit in HIGHS:
+                        fwd = all(o[1] == lit for o in outcomes)
+                        rep.ob("R08.1", construct, fwd, "the requested HiGHS variant is forwarded" if fwd else f"method={lit!r} reaches the LP solver without forwarding the variant (it receives method={sorted(str(o[1]) for o in outcomes)}): a different HiGHS algorithm runs", loc=where(next(iter(outcomes))), detail="variant-forwarded")
+                    else:
+                        okm = all(o[1] in (None, "highs") for o in outcomes)
+                        rep.ob("R08.1", construct, okm, "linprog leaves the HiGHS variant to the LP solver" if okm else f"method='linprog' is handed on as method={sorted(str(o[1]) for o in outcomes)}, which scipy.optimize.linprog does not accept", loc=where(next(iter(outcomes))), detail="linprog-method")
+    rep.saw("routing scenarios walked", n)
+
+
+def _module_literal(prog, module, name):
+    for st in module.tree.body:
+        if isinstance(st, ast.Assign) and len(st.targets) == 1 and isinstance(st.targets[0], ast.Name) and st.targets[0].id == name and isinstance(st.value, (ast.Tuple, ast.List, ast.Set)) and all(isinstance(x, ast.Constant) for x in st.value.elts):
+            return [x.value for x in st.value.elts]
+    return None
 
 
 def check(prog, rep):
@@ -36,50 +171,7 @@ def check(prog, rep):
     nlp_sites = [c for c in calls(solve.node) if dotted(c.func) in nlp_entries]
     if not lp_sites or not nlp_sites:
         raise AnalysisError("Problem.solve does not call both solver entries")
-    # --- which method literals are routed to the LP solver, and is `method` forwarded where it matters?
-    routed = {}
-    for c in lp_sites:
-        pc = path_condition(c)
-        kws = {k.arg: k.value for k in c.keywords if k.arg}
-        for lit in ("auto", "linprog") + HIGHS:
-            a = f"method == '{lit}'"
-            grp = [x for x in pc.atoms() if x.startswith("method in ") and f"'{lit}'" in x]
-            # reached when method == lit?
-            env_ok = _reachable_with(pc, lit)
-            if env_ok:
-                routed.setdefault(lit, []).append((c, kws))
-    for lit in ("linprog",) + HIGHS:
-        ok = lit in routed
-        rep.ob("R08.1", f"Problem.solve[{lit}]", ok, f"method={lit!r} is routed to the LP solver" if ok else f"method={lit!r} does not reach the LP solver", loc=solve.loc, detail="routed-to-lp")
-        if lit in HIGHS and ok:
-            fwd = all("method" in kws and src(kws["method"]) == "method" for _c, kws in routed[lit])
-            rep.ob("R08.1", f"Problem.solve[{lit}]", fwd, "the requested HiGHS variant is forwarded (method=method)" if fwd else f"method={lit!r} reaches the LP solver without forwarding the variant: a different HiGHS algorithm runs", loc=f"{solve.module.rel}:{routed[lit][0][0].lineno}", detail="variant-forwarded")
-    # auto: under the linearity predicate
-    auto_sites = routed.get("auto", [])
-    lin_atoms = set()
-    ok_auto = False
-    for c, _k in auto_sites:
-        pc = path_condition(c)
-        lin = [a for a in pc.atoms() if "linear" in a]
-        lin_atoms |= set(lin)
-        if lin and counterexample(pc, And(atom("method == 'auto'"), atom(lin[0]))) is None:
-            ok_auto = True
-    rep.ob("R08.1", "Problem.solve[auto]", ok_auto, f"auto reaches the LP solver exactly under {sorted(lin_atoms)}" if ok_auto else "auto routing to the LP solver is not guarded by the linearity predicate", loc=solve.loc, detail="auto-iff-linear")
-    # no LP method literal reaches the NLP entry
-    for c in nlp_sites:
-        pc = path_condition(c)
-        for lit in ("linprog",) + HIGHS:
-            leak = _reachable_with(pc, lit)
-            rep.ob("R08.1", f"Problem.solve->{dotted(c.func)}", not leak, f"method={lit!r} cannot reach the NLP solver" if not leak else f"method={lit!r} can fall through to the NLP solver (scipy.optimize.minimize has no such method)", loc=f"{solve.module.rel}:{c.lineno}", detail=f"no-leak:{lit}")
-    # auto + linear must not reach NLP
-    for c in nlp_sites:
-        pc = path_condition(c)
-        if lin_atoms:
-            cx = counterexample(And(pc, atom("method == 'auto'")), Not(atom(sorted(lin_atoms)[0])))
-            # after `method = self._auto_select_method()` the name is rebound, so only the structural fact counts:
-            # the NLP call is not inside the linear branch
-            inside = any(src(t) == sorted(lin_atoms)[0] and pol for t, pol in dominating_guards(c))
-            rep.ob("R08.1", f"Problem.solve->{dotted(c.func)}", not inside, "the NLP call is outside the linear branch of auto" if not inside else "a linear problem under auto is sent to the NLP solver", loc=f"{solve.module.rel}:{c.lineno}", detail="auto-linear-not-nlp")
+    _routing_by_scenario(prog, rep, solve, lp_entries, nlp_entries)
 
     # the LP entry re-validates linearity before extraction
     for fi, call, w in backend_calls(prog):
@@ -175,17 +267,31 @@ def _wiring(prog, rep, fi, call):
         for n in walk_local(fi.node, include_self=False):
             if isinstance(n, ast.Assign) and isinstance(n.targets[0], ast.Subscript) and src(n.targets[0].value) == d and isinstance(n.targets[0].slice, ast.Constant):
                 kws[n.targets[0].slice.value] = (dominating_guards(n), n.value)
+    from .c07 import _is_lpdata
     lp = None
     for nm, vals in assigns.items():
         if any(isinstance(v, ast.AST) and ("_lp_cache" in src(v) or "extract(" in src(v)) for v in vals):
             lp = nm
     if lp is None:
+        cands = [nm for nm in assigns if _is_lpdata(nm, assigns, fi, prog)]
+        lp = cands[0] if len(cands) == 1 else None
+    if lp is None:
         raise AnalysisError(f"{fi.name}: LPData local not found")
+
+    def resolved(v):
+        """Follow one local copy: `tmp = lp.field ... kwargs[field] = tmp`."""
+        if isinstance(v, ast.Name):
+            r = reaching_value(v, v.id)
+            if r is not None:
+                return r
+        return v
     for field in ("A_ub", "b_ub", "A_eq", "b_eq", "bounds"):
         if field not in kws:
             rep.ob("R08.2", f"{fi.name}:linprog({field}=)", False, f"linprog never receives {field}: that part of the model is dropped", loc=f"{fi.module.rel}:{call.lineno}", detail="fed-from-same-field")
             continue
         guards, v = kws[field]
+        if src(resolved(v)) == f"{lp}.{field}":
+            v = resolved(v)
         ok = src(v) == f"{lp}.{field}"
         if not ok and field == "bounds" and isinstance(v, ast.Name):
             # bounds are mutable user state and may be read per solve: extract_bounds(<problem.variables>)
@@ -203,8 +309,14 @@ def _wiring(prog, rep, fi, call):
     if "c" not in kws:
         raise AnalysisError(f"{fi.name}: linprog cost vector not found")
     cv = kws["c"][1]
-    srcs = [src(x) for x in assigns.get(cv.id, [])] if isinstance(cv, ast.Name) else [src(cv)]
-    ok = any(s == f"{lp}.c" for s in srcs)
+    feed = [x for x in assigns.get(cv.id, []) if isinstance(x, ast.AST)] if isinstance(cv, ast.Name) else [cv]
+    srcs = [src(x) for x in feed]
+    # every expression feeding the cost vector is built from lp.c (and lp.sense for the sign) only
+    def only_c(e):
+        attrs = {n.attr for n in ast.walk(e) if isinstance(n, ast.Attribute) and isinstance(n.value, ast.Name) and n.value.id == lp}
+        names = {n.id for n in ast.walk(e) if isinstance(n, ast.Name)} - {lp, cv.id if isinstance(cv, ast.Name) else lp}
+        return attrs <= {"c", "sense"} and not names and not any(isinstance(n, (ast.Call, ast.BinOp, ast.Subscript)) for n in ast.walk(e))
+    ok = any("c" in {n.attr for n in ast.walk(e) if isinstance(n, ast.Attribute) and isinstance(n.value, ast.Name) and n.value.id == lp} for e in feed) and all(only_c(e) for e in feed)
     rep.ob("R08.2", f"{fi.name}:linprog(c=)", ok, f"c originates from {lp}.c" if ok else f"the cost vector originates from {srcs}, not from {lp}.c", loc=f"{fi.module.rel}:{call.lineno}", detail="fed-from-same-field")
     m = kws.get("method")
     rep.ob("R08.2", f"{fi.name}:linprog(method=)", m is not None and src(m[1]) == "method", "the requested method is handed to linprog" if m is not None and src(m[1]) == "method" else "the method argument is not handed to linprog", loc=f"{fi.module.rel}:{call.lineno}", detail="method")
